@@ -4,7 +4,9 @@
    2. what send_session appends is what was sent (and a connected session gets it on its
       connection instead, the queue untouched);
    3. a resume delivers the queue once, in order, and empties it; combined with 1:
-      "dropped, stayed disconnected, resumed: the resume outputs exactly what was appended";
+      "dropped, stayed disconnected, resumed: the resume outputs exactly what was appended"
+      (when nothing queued closes the connection; 5. is the other case: the queue is written up to
+      the first closing message, then the connection is closed and the session is gone for good);
    4. bye and expiry are final for every continuation: session ids are never handed out twice.
 
    (Written when the model's alphabet contained no chat-refresh notice; it now does: enqueue keeps one.)
@@ -597,7 +599,7 @@ Lemma rel0_do_media sid h c x s to mk stream media :
 Proof.
   intros Hs. unfold do_media. destruct to as [i|u| |]; try apply rel0_refl.
   destruct (N.eqb mk 0).
-  - destruct (negb (offer_allowed (s_perms s) stream media)); [apply rel0_refl|].
+  - destruct (negb (offer_allowed (s_perms s) stream _)); [apply rel0_refl|].
     destruct (aget (s_pubs s) stream); [|apply rel0_start_create].
     eapply rel0_trans; [|apply rel0_send_session]. apply rel0_put with s; [exact Hs|now apply sessA_same].
   - destruct (N.eqb mk 1).
@@ -738,11 +740,15 @@ Proof.
           [split; reflexivity|hsimpl; apply aget_aset_same|reflexivity].
       - unfold send_conn. rewrite Hc'. split; reflexivity. }
     destruct E1 as [Es En]. cbn [fst].
-    apply (rel_aset_B sid h _ n (sess_pending (sess_conn s (Some c)) [])).
-    + transitivity (aset (h_sessions h1) n (sess_pending (sess_conn s (Some c)) [])); [reflexivity|now rewrite Es].
-    + transitivity (h_nextsid h1); [reflexivity|exact En].
-    + eexists; exact Hs.
-    + split; [discriminate|reflexivity].
+    match goal with |- rel _ _ (fst (if _ then _ else (?hh, _))) => assert (R5 : rel sid h hh) end.
+    { apply (rel_aset_B sid h _ n (sess_pending (sess_conn s (Some c)) [])).
+      + transitivity (aset (h_sessions h1) n (sess_pending (sess_conn s (Some c)) [])); [reflexivity|now rewrite Es].
+      + transitivity (h_nextsid h1); [reflexivity|exact En].
+      + eexists; exact Hs.
+      + split; [discriminate|reflexivity]. }
+    destruct (queue_closes s); [|exact R5].
+    match goal with |- context [close_conn ?hh c] => destruct (close_conn hh c) as [h6 o6] eqn:H6 end. cbn [fst].
+    rewrite (fst_eq _ _ _ H6). eapply rel_trans; [exact R5|apply rel_of_rel0, rel0_close_conn].
 Qed.
 
 Lemma rel_do_internal sid h c x s q : get_sess h x = Some s -> rel sid h (fst (do_internal h c x s q)).
@@ -1174,24 +1180,105 @@ Proof.
   destruct m; try reflexivity. exfalso. eapply Hm; reflexivity.
 Qed.
 
+(* ------------------------------------------------------------------ what closing a session writes *)
+(* closing a session (and its virtual sessions) writes to no connection: only the backend and the
+   media server are told *)
+Lemma fold_acc_split (f : hub -> N -> hub * list out) l : forall hh oo,
+  fold_left (fun acc x => let '(hh, oo) := acc in let '(hh', oo') := f hh x in (hh', oo ++ oo')) l (hh, oo) =
+  (fst (fold_sessions hh l f), oo ++ snd (fold_sessions hh l f)).
+Proof.
+  induction l as [|x l IH]; intros hh oo.
+  - cbn. now rewrite app_nil_r.
+  - rewrite fold_sessions_cons. cbn [fold_left]. destruct (f hh x) as [h1 o1]. rewrite IH.
+    destruct (fold_sessions h1 l f) as [h2 o2]. cbn [fst snd]. now rewrite app_assoc.
+Qed.
+
+Definition noconn (o : list out) : Prop := forall c m, ~ In (ToConn c m) o.
+Lemma noconn_nil : noconn [].
+Proof. intros c m []. Qed.
+Lemma noconn_app o1 o2 : noconn o1 -> noconn o2 -> noconn (o1 ++ o2).
+Proof. intros H1 H2 c m Hin. apply in_app_or in Hin as [Hin|Hin]; [eapply H1|eapply H2]; eauto. Qed.
+Lemma noconn_cons x o : (forall c m, x <> ToConn c m) -> noconn o -> noconn (x :: o).
+Proof. intros Hx Ho c m [E|Hin]; [eapply Hx; eauto|eapply Ho; eauto]. Qed.
+Lemma noconn_map {A} (f : A -> out) l : (forall a c m, f a <> ToConn c m) -> noconn (map f l).
+Proof. intros Hf c m Hin. apply in_map_iff in Hin as (a & E & _). eapply Hf; eauto. Qed.
+
+Lemma noconn_close_tokens h toks : noconn (snd (close_tokens h toks)).
+Proof. unfold close_tokens. cbn [snd]. apply noconn_map. intros; discriminate. Qed.
+Lemma noconn_release_mcu h x : noconn (snd (release_mcu h x)).
+Proof. unfold release_mcu. destruct (get_sess h x); [apply noconn_close_tokens|apply noconn_nil]. Qed.
+Lemma noconn_revoke h x : noconn (snd (revoke h x)).
+Proof. unfold revoke. destruct (get_sess h x); [apply noconn_close_tokens|apply noconn_nil]. Qed.
+Lemma noconn_leave_call h x : noconn (snd (leave_call h x)).
+Proof.
+  unfold leave_call. destruct (get_sess h x) as [s|]; [|apply noconn_nil].
+  destruct (s_kind s); destruct (s_room s); try apply noconn_nil; apply noconn_release_mcu.
+Qed.
+Lemma noconn_leave_room h x n : noconn (snd (leave_room h x n)).
+Proof.
+  unfold leave_room. destruct (get_sess h x) as [s|]; [|apply noconn_nil].
+  destruct (s_room s) as [k|]; [|apply noconn_nil].
+  destruct (is_virtual (s_kind s)); [apply noconn_nil|].
+  match goal with |- context [release_mcu ?hh x] => pose proof (noconn_release_mcu hh x) as Hr; destruct (release_mcu hh x) as [h3 o2] end.
+  cbn [snd] in *. apply noconn_app; [|exact Hr].
+  destruct (n && negb (N.eqb (s_rs s) 0)); [apply noconn_cons; [intros; discriminate|apply noconn_nil]|apply noconn_nil].
+Qed.
+Lemma noconn_close_one h x : noconn (snd (close_one h x)).
+Proof.
+  unfold close_one. destruct (get_sess h x) as [s|]; [|apply noconn_nil].
+  pose proof (noconn_leave_room h x true) as H1. destruct (leave_room h x true) as [h1 o1].
+  pose proof (noconn_release_mcu h1 x) as H2. destruct (release_mcu h1 x) as [h2a o2a]. cbn [snd] in *.
+  assert (H3 : noconn (o2a ++ map (fun e => ToMcu (MFailed (fst e))) (filter (fun e => N.eqb (mp_owner (snd e)) x) (h_mcupending h2a)))).
+  { apply noconn_app; [exact H2|]. apply noconn_map. intros; discriminate. }
+  destruct (s_kind s); cbn [snd]; try (apply noconn_app; [exact H1|exact H3]).
+  apply noconn_app; [exact H1|]. apply noconn_app; [exact H3|].
+  destruct (s_room s); [apply noconn_cons; [intros; discriminate|apply noconn_nil]|apply noconn_nil].
+Qed.
+Lemma noconn_fold (f : hub -> N -> hub * list out) l : (forall hh x, noconn (snd (f hh x))) ->
+  forall h, noconn (snd (fold_sessions h l f)).
+Proof.
+  intros Hf. induction l as [|x l IH]; intros h; [apply noconn_nil|].
+  rewrite fold_sessions_cons. pose proof (Hf h x) as H1. destruct (f h x) as [h1 o1].
+  pose proof (IH h1) as H2. destruct (fold_sessions h1 l f) as [h2 o2]. cbn [snd] in *. now apply noconn_app.
+Qed.
+Lemma close_session_eq h x :
+  close_session h x = (fst (fold_sessions (fst (close_one h x)) (children h x) close_one),
+                       snd (close_one h x) ++ snd (fold_sessions (fst (close_one h x)) (children h x) close_one)).
+Proof. unfold close_session. destruct (close_one h x) as [h1 o1]. cbn [fst snd]. apply fold_acc_split. Qed.
+Lemma noconn_close_session h x : noconn (snd (close_session h x)).
+Proof. rewrite close_session_eq. cbn [snd]. apply noconn_app; [apply noconn_close_one|apply noconn_fold, noconn_close_one]. Qed.
+
+(* ------------------------------------------------------------------ a queued message that closes the connection *)
+(* closing_in, queue_closes_eq, upto_closing_*: proofs/Hub_easy.v *)
+Lemma never_closing_in room m : never_closing m = true -> closing_in room m = false.
+Proof. destruct m; cbn; congruence. Qed.
+Lemma never_closing_queue room l : forallb never_closing l = true -> existsb (closing_in room) l = false.
+Proof.
+  induction l as [|m l IH]; cbn [forallb existsb]; [reflexivity|]. intros H. apply andb_true_iff in H as [H1 H2].
+  rewrite (never_closing_in room m H1), (IH H2). reflexivity.
+Qed.
+
 (* ------------------------------------------------------------------ 3. resume delivers the queue once *)
 (* The connection of a session is cut, the session has no connection after each of the following
    ops (any ops, any number), then it resumes: the resume answers with the same session id followed
    by exactly the messages that were appended to the queue since the cut, in order, once; the queue
-   is empty afterwards and the session is attached to the new connection. *)
+   is empty afterwards and the session is attached to the new connection -- provided nothing that was
+   appended closes the connection it is written to (closing_in, for the room the session is in at
+   the resume); drop_then_resume_closing below is the complementary case. *)
 Theorem drop_then_resume q h0 c0 cn0 sid ops c cn :
   Good h0 -> aget (h_conns h0) c0 = Some cn0 -> c_sess cn0 = Some sid ->
   stays_disc q sid h0 (ODrop c0 :: ops) ->
   let hj := runx q h0 (ODrop c0 :: ops) in
   aget (h_conns hj) c = Some cn -> c_sess cn = None -> throttled hj (c_addr cn) ACT_RESUME = false ->
   (forall s, get_sess hj sid = Some s -> is_virtual (s_kind s) = false) ->
+  (forall s, get_sess hj sid = Some s -> existsb (closing_in (s_room s)) (appended q sid h0 (ODrop c0 :: ops)) = false) ->
   exists s, get_sess hj sid = Some s /\ s_conn s = None /\
   let '(h', outs) := step hj (OHello c (HResume (IdPriv sid))) in
   outs = ToConn c (SHello sid (sess_userid hj sid s)) :: map (ToConn c) (appended q sid h0 (ODrop c0 :: ops)) /\
   (exists s', get_sess h' sid = Some s' /\ s_conn s' = Some c /\ s_pending s' = [] /\ s_room s' = s_room s) /\
   nmem sid (h_expired h') = false.
 Proof.
-  intros [W I] Hc0 Hcs0 Hst hj Hc Hcs Hth Hnv. subst hj.
+  intros [W I] Hc0 Hcs0 Hst hj Hc Hcs Hth Hnv Hncl. subst hj.
   destruct (wf_conns _ _ h0 W c0 cn0 sid Hc0 Hcs0) as [s0 [Hs0 Hcn0]].
   assert (Hp0 : pend h0 sid = []).
   { unfold pend. rewrite Hs0. apply (inv_conn h0 I sid s0 Hs0). congruence. }
@@ -1200,10 +1287,12 @@ Proof.
   assert (Hd : disc (runx q h0 (ODrop c0 :: ops)) sid).
   { cbn [stays_disc] in Hst. destruct Hst as [Hd1 Hr]. cbn [runx]. now apply stays_disc_end. }
   destruct Hd as [s [Hs Hcn]]. exists s. split; [exact Hs|]. split; [exact Hcn|].
-  pose proof (resume_flushes_queue _ c cn sid s Hc Hcs Hs (Hnv s Hs) Hcn Hth) as HR.
+  unfold pend in Hq. rewrite Hs in Hq.
+  assert (Hqc : queue_closes s = false) by (rewrite queue_closes_eq, Hq; exact (Hncl s Hs)).
+  pose proof (resume_flushes_queue _ c cn sid s Hc Hcs Hs (Hnv s Hs) Hcn Hth Hqc) as HR.
   destruct (step (runx q h0 (ODrop c0 :: ops)) (OHello c (HResume (IdPriv sid)))) as [h' outs].
   destruct HR as (Ho & Hs' & He). split; [|split; assumption].
-  rewrite Ho. unfold pend in Hq. rewrite Hs in Hq. rewrite Hq. reflexivity.
+  rewrite Ho, Hq. reflexivity.
 Qed.
 
 (* the general form: from any state in which the session is live *)
@@ -1212,20 +1301,23 @@ Theorem resume_after_segment q h sid ops c cn :
   let hj := runx q h ops in
   aget (h_conns hj) c = Some cn -> c_sess cn = None -> throttled hj (c_addr cn) ACT_RESUME = false ->
   (forall s, get_sess hj sid = Some s -> is_virtual (s_kind s) = false) ->
+  (forall s, get_sess hj sid = Some s -> existsb (closing_in (s_room s)) (pend h sid ++ appended q sid h ops) = false) ->
   exists s, get_sess hj sid = Some s /\
   snd (step hj (OHello c (HResume (IdPriv sid)))) =
     ToConn c (SHello sid (sess_userid hj sid s)) :: map (ToConn c) (pend h sid ++ appended q sid h ops) /\
   pend (fst (step hj (OHello c (HResume (IdPriv sid))))) sid = [].
 Proof.
-  intros I Hl Hne Hst hj Hc Hcs Hth Hnv. subst hj.
+  intros I Hl Hne Hst hj Hc Hcs Hth Hnv Hncl. subst hj.
   pose proof (queue_over_segment q sid ops h I Hl Hst) as Hq.
   assert (Hd : disc (runx q h ops) sid).
   { destruct ops as [|o r]; [contradiction|]. cbn [stays_disc] in Hst. destruct Hst as [Hd1 Hr]. cbn [runx]. now apply stays_disc_end. }
   destruct Hd as [s [Hs Hcn]]. exists s. split; [exact Hs|].
-  pose proof (resume_flushes_queue _ c cn sid s Hc Hcs Hs (Hnv s Hs) Hcn Hth) as HR.
+  unfold pend at 1 in Hq. rewrite Hs in Hq.
+  assert (Hqc : queue_closes s = false) by (rewrite queue_closes_eq, Hq; exact (Hncl s Hs)).
+  pose proof (resume_flushes_queue _ c cn sid s Hc Hcs Hs (Hnv s Hs) Hcn Hth Hqc) as HR.
   destruct (step (runx q h ops) (OHello c (HResume (IdPriv sid)))) as [h' outs].
   destruct HR as (Ho & [s' (Hs' & _ & Hp' & _)] & _). cbn [fst snd]. split.
-  - rewrite Ho. unfold pend in Hq. rewrite Hs in Hq. rewrite Hq. reflexivity.
+  - rewrite Ho, Hq. reflexivity.
   - unfold pend. rewrite Hs'. exact Hp'.
 Qed.
 
@@ -1375,6 +1467,109 @@ Proof.
   - cbn [h_expired set_expired]. apply in_nadd_intro. now left.
   - exists (sess_conn s None). split; [|reflexivity].
     change (aget (aset (h_sessions h) sid (sess_conn s None)) sid = Some (sess_conn s None)). apply aget_aset_same.
+Qed.
+
+(* ------------------------------------------------------------------ 5. a queued bye / disinvite: the resume delivers the queue, then the session ends *)
+(* When the queue holds a message that closes the connection it is written to (a bye, or a disinvite
+   from the room the session is in: queue_closes), the resume still answers with the session id and
+   writes the queue in order up to and including the first such message (upto_closing; characterised
+   by upto_closing_spec in Hub_easy.v: the prefix that ends with the first closing message); what was
+   queued after it is not written (the close frame has been sent: seen on the real server in a
+   directed run).  Then the connection is closed and the session with it.  Nothing else is written
+   to any connection by the resume (the rest tells the backend / the media server), and the session
+   is final in the sense of 4. (found by a thorough-tier run: a disinvite queued for a disconnected
+   session, then a resume). *)
+Lemma resume_closing_queue h c cn n s :
+  aget h.(h_conns) c = Some cn -> cn.(c_sess) = None -> get_sess h n = Some s ->
+  is_virtual s.(s_kind) = false -> s.(s_conn) = None -> throttled h cn.(c_addr) ACT_RESUME = false ->
+  queue_closes s = true ->
+  let '(h', outs) := step h (OHello c (HResume (IdPriv n))) in
+  (exists rest, outs = ToConn c (SHello n (sess_userid h n s)) :: map (ToConn c) (upto_closing s.(s_room) s.(s_pending)) ++ Closed c :: rest /\ noconn rest) /\
+  get_sess h' n = None.
+Proof.
+  intros Hc Hs Hn Hv Hcn Ht Hq. cbn [step]. rewrite Hc, Hs. cbn [do_hello]. hsimpl.
+  assert (Ht' : throttled (set_conns h (aset (h_conns h) c (mkconn (c_addr cn) None (c_expect cn)))) (c_addr cn) ACT_RESUME = false) by exact Ht.
+  rewrite Ht'. unfold get_sess in *. hsimpl. rewrite Hn, Hv, Hcn, Hq. hsimpl.
+  unfold close_conn. hsimpl. rewrite aget_aset_same. hsimpl.
+  match goal with |- context [close_session ?hh n] => pose proof (close_session_gone hh n) as Hg;
+    pose proof (noconn_close_session hh n) as Hnc; destruct (close_session hh n) as [h3 o3] end.
+  cbn [fst snd] in *. split; [|exact Hg]. exists o3. split; [|exact Hnc]. reflexivity.
+Qed.
+
+Theorem resume_closing_is_final q h c cn sid s :
+  Good h -> aget (h_conns h) c = Some cn -> c_sess cn = None -> get_sess h sid = Some s ->
+  is_virtual (s_kind s) = false -> s_conn s = None -> throttled h (c_addr cn) ACT_RESUME = false ->
+  queue_closes s = true ->
+  let o := OHello c (HResume (IdPriv sid)) in
+  (exists rest, snd (step h o) =
+     ToConn c (SHello sid (sess_userid h sid s)) :: map (ToConn c) (upto_closing (s_room s) (s_pending s)) ++ Closed c :: rest /\ noconn rest) /\
+  get_sess (fst (step h o)) sid = None /\ unreferenced (fst (step h o)) sid /\
+  final q (fst (stepx q h o)) sid.
+Proof.
+  intros G Hc Hcs Hs Hv Hcn Hth Hq o. pose proof G as [W I].
+  pose proof (resume_closing_queue h c cn sid s Hc Hcs Hs Hv Hcn Hth Hq) as HR. fold o in HR.
+  destruct (step h o) as [h' outs] eqn:E. destruct HR as [Ho Hg]. cbn [fst snd].
+  assert (W' : WF h') by (change h' with (fst (h', outs)); rewrite <- E; now apply wf_step).
+  split; [exact Ho|]. split; [exact Hg|]. split; [now apply no_residue|].
+  assert (Hle : sid <= h_nextsid h) by (apply (inv_ids h I); eexists; exact Hs).
+  apply final_of_dead; [now apply good_stepx| |].
+  - pose proof (nextsid_stepx q h o). lia.
+  - apply (rel0_dead sid _ _ (stepx_after_step q sid h o)). rewrite E. exact Hg.
+Qed.
+
+Theorem drop_then_resume_closing q h0 c0 cn0 sid ops c cn :
+  Good h0 -> aget (h_conns h0) c0 = Some cn0 -> c_sess cn0 = Some sid ->
+  stays_disc q sid h0 (ODrop c0 :: ops) ->
+  let hj := runx q h0 (ODrop c0 :: ops) in
+  aget (h_conns hj) c = Some cn -> c_sess cn = None -> throttled hj (c_addr cn) ACT_RESUME = false ->
+  (forall s, get_sess hj sid = Some s -> is_virtual (s_kind s) = false) ->
+  (forall s, get_sess hj sid = Some s -> existsb (closing_in (s_room s)) (appended q sid h0 (ODrop c0 :: ops)) = true) ->
+  let o := OHello c (HResume (IdPriv sid)) in
+  exists s, get_sess hj sid = Some s /\ s_conn s = None /\
+  (exists rest, snd (step hj o) =
+     ToConn c (SHello sid (sess_userid hj sid s)) :: map (ToConn c) (upto_closing (s_room s) (appended q sid h0 (ODrop c0 :: ops))) ++ Closed c :: rest /\
+     noconn rest) /\
+  get_sess (fst (step hj o)) sid = None /\ unreferenced (fst (step hj o)) sid /\
+  final q (fst (stepx q hj o)) sid.
+Proof.
+  intros G Hc0 Hcs0 Hst hj Hc Hcs Hth Hnv Hcl o. pose proof G as [W I]. subst hj.
+  destruct (wf_conns _ _ h0 W c0 cn0 sid Hc0 Hcs0) as [s0 [Hs0 Hcn0]].
+  assert (Hp0 : pend h0 sid = []).
+  { unfold pend. rewrite Hs0. apply (inv_conn h0 I sid s0 Hs0). congruence. }
+  assert (Hlive0 : live h0 sid) by (eexists; exact Hs0).
+  pose proof (queue_over_segment q sid (ODrop c0 :: ops) h0 I Hlive0 Hst) as Hq. rewrite Hp0 in Hq. cbn [app] in Hq.
+  assert (Hd : disc (runx q h0 (ODrop c0 :: ops)) sid).
+  { cbn [stays_disc] in Hst. destruct Hst as [Hd1 Hr]. cbn [runx]. now apply stays_disc_end. }
+  destruct Hd as [s [Hs Hcn]]. exists s. split; [exact Hs|]. split; [exact Hcn|].
+  unfold pend in Hq. rewrite Hs in Hq.
+  assert (Hqc : queue_closes s = true) by (rewrite queue_closes_eq, Hq; exact (Hcl s Hs)).
+  rewrite <- Hq.
+  exact (resume_closing_is_final q _ c cn sid s (good_runx q _ h0 G) Hc Hcs Hs (Hnv s Hs) Hcn Hth Hqc).
+Qed.
+
+Theorem resume_after_segment_closing q h sid ops c cn :
+  Good h -> live h sid -> ops <> [] -> stays_disc q sid h ops ->
+  let hj := runx q h ops in
+  aget (h_conns hj) c = Some cn -> c_sess cn = None -> throttled hj (c_addr cn) ACT_RESUME = false ->
+  (forall s, get_sess hj sid = Some s -> is_virtual (s_kind s) = false) ->
+  (forall s, get_sess hj sid = Some s -> existsb (closing_in (s_room s)) (pend h sid ++ appended q sid h ops) = true) ->
+  let o := OHello c (HResume (IdPriv sid)) in
+  exists s, get_sess hj sid = Some s /\
+  (exists rest, snd (step hj o) =
+     ToConn c (SHello sid (sess_userid hj sid s)) :: map (ToConn c) (upto_closing (s_room s) (pend h sid ++ appended q sid h ops)) ++ Closed c :: rest /\
+     noconn rest) /\
+  get_sess (fst (step hj o)) sid = None /\ unreferenced (fst (step hj o)) sid /\
+  final q (fst (stepx q hj o)) sid.
+Proof.
+  intros G Hl Hne Hst hj Hc Hcs Hth Hnv Hcl o. pose proof G as [W I]. subst hj.
+  pose proof (queue_over_segment q sid ops h I Hl Hst) as Hq.
+  assert (Hd : disc (runx q h ops) sid).
+  { destruct ops as [|o1 r]; [contradiction|]. cbn [stays_disc] in Hst. destruct Hst as [Hd1 Hr]. cbn [runx]. now apply stays_disc_end. }
+  destruct Hd as [s [Hs Hcn]]. exists s. split; [exact Hs|].
+  unfold pend at 1 in Hq. rewrite Hs in Hq.
+  assert (Hqc : queue_closes s = true) by (rewrite queue_closes_eq, Hq; exact (Hcl s Hs)).
+  rewrite <- Hq.
+  exact (resume_closing_is_final q _ c cn sid s (good_runx q _ h G) Hc Hcs Hs (Hnv s Hs) Hcn Hth Hqc).
 Qed.
 
 (* ------------------------------------------------------------------ the statements for run / qrun *)
